@@ -14,13 +14,25 @@ fn small_words(r: &mut Rng, count: usize) -> Vec<String> {
     (0..count).map(|_| { let n = r.range(1, 5); let mut s = String::new(); for j in 0..n { if j > 0 && r.chance(1, 3) { s.push('.') } s += inv[r.below(4)]; } s }).collect()
 }
 
+/// which side of the underline the optional stands on (decided by the text so that both spellings agree)
+fn r_before(pre: &str) -> bool { pre.len() % 2 == 0 }
+
 fn group_matrix(c: char) -> &'static str {
     match c { 'C' => "[-syll]", 'O' => "[+cons, -son, -syll]", 'S' => "[+cons, +son, -syll]", 'P' => "[+cons, -son, -syll, -delrel, -cont]", 'F' => "[+cons, -son, -syll, -approx, +cont]", 'L' => "[+cons, +son, -syll, +approx]", 'N' => "[+cons, +son, -syll, -approx, +nasal]", 'G' => "[-cons, +son, -syll]", _ => "[-cons, +son, +syll]" }
 }
 
 pub(crate) fn gen(r: &mut Rng) -> Case {
     let mut words: Vec<String> = if r.chance(1, 2) { small_words(r, 12) } else { (0..8).map(|_| rand_word(r, &WordCfg::default())).collect() };
-    match r.below(5) {
+    match r.below(6) {
+        5 => { // spellings of one optional: `(X)` = `(X,1)` = `(X,0:1)`, `(X,N)` = `(X,0:N)`
+            let x = *r.pick(&EL[..]);
+            let (a, b) = match r.below(4) { 0 => (format!("({x})"), format!("({x},1)")), 1 => (format!("({x})"), format!("({x},0:1)")), 2 => (format!("({x},1)"), format!("({x},0:1)")), _ => { let n = r.range(2, 4); (format!("({x},{n})"), format!("({x},0:{n})")) } };
+            let pre = if r.chance(1, 2) { format!("{} ", r.pick(&EL[..])) } else { String::new() };
+            let post = if r.chance(1, 2) { format!(" {}", r.pick(&EL[..])) } else { String::new() };
+            let inp = *r.pick(&["a", "V", "C", "s"][..]); let out = *r.pick(&["o", "x", "[+nasal]", "*"][..]);
+            let env = |o: &str| if r_before(&pre) { format!("{pre}{o}{post} _") } else { format!("_ {pre}{o}{post}") };
+            Case { family: "optional-spelling".into(), short: vec![format!("{inp} > {out} / {}", env(&a))], long: vec![format!("{inp} > {out} / {}", env(&b))], words }
+        }
         0 => { // condensed
             let k = r.range(2, 3);
             let ins: Vec<&str> = (0..k).map(|_| *r.pick(&["a", "i", "V", "s", "t", "C", "k"][..])).collect();
